@@ -27,7 +27,11 @@ RULE = ("strings: (a) every BMP code point as a one-character string (plus all o
         "attribute_value of every registered name and through Tag.decode; a sample through every string class an HTML "
         "builder creates (NavigableString, Script, Stylesheet, TemplateString, RubyTextString, RubyParenthesisString) x "
         "seven histories (in place, moved, copied, parent renamed, moved into <script>, parent copied and renamed) x every "
-        "registered formatter: the string is substituted according to where it IS. Non-trivial: the string contains a "
+        "registered formatter: the string is substituted according to where it IS; user-built formatter objects (Formatter "
+        "with language HTML / XML / none, HTMLFormatter, XMLFormatter) x entity_substitution in {xml, html, html5, None} x "
+        "cdata_containing_tags in {not given, None, set(), frozenset(), [], (), non-empty sets/lists} x twelve kinds of value "
+        "(str; NavigableString / Script / Stylesheet without parent; copied; extracted; with parent p/script/style/pre/em) "
+        "through substitute, attribute_value, output_ready and as a tag's attribute value. Non-trivial: the string contains a "
         "character some substitution or the quoting rewrites. Distinct by string.")
 ASSUMPTIONS = [
     "element text is read back by the stdlib html.parser tokenizer + bs4's handle_entityref/handle_charref: modelled by "
@@ -647,6 +651,159 @@ def string_class_level(ctx, strings):
                              case, g, e)
 
 
+# ------------------------------------------------------------------------------------------ formatter objects x value kinds
+# User-built formatter objects with every boundary value of cdata_containing_tags, and every kind of value
+# Formatter.substitute can be handed: a plain str, NavigableString objects (and the builder's subclasses) with and
+# without a parent, as text (output_ready), through attribute_value, and as the attribute value of a tag.
+# Documented rule: a value is left alone only if it is a NavigableString WITH a parent whose name is in the formatter's
+# cdata_containing_tags; an option that is given - the empty set included - is used as given, None means the
+# language's default ({script, style} for HTML, nothing for XML).
+ES_FUNCS = {"minimal": "substitute_xml", "html": "substitute_html", "html5": "substitute_html5", None: None}
+CDATA_VALUES = {"(not given)": "omit", "None": None, "set()": set(), "frozenset()": frozenset(), "[]": [], "()": (),
+                "{'script'}": {"script"}, "{'pre'}": {"pre"}, "['style', 'em']": ["style", "em"]}
+FCLASSES = ["Formatter(HTML)", "Formatter(XML)", "Formatter()", "HTMLFormatter", "XMLFormatter"]
+VALUE_KINDS = ["str", "NavigableString without parent", "Script without parent", "Stylesheet without parent",
+               "copy of a parsed string", "extracted string of <p>", "extracted string of <script>",
+               "string in <p>", "string in <script>", "string in <style>", "string in <pre>", "string in <em>"]
+
+
+def build_formatter(fclass, es_name, cdata_label, variant=0):
+    from bs4.formatter import Formatter
+    es = getattr(ES, ES_FUNCS[es_name]) if ES_FUNCS[es_name] else None
+    kw = {"entity_substitution": es}
+    cv = CDATA_VALUES[cdata_label]
+    if not (isinstance(cv, str) and cv == "omit"):
+        kw["cdata_containing_tags"] = copy.copy(cv)
+    if variant % 3 == 1:
+        kw["indent"] = 3
+    if variant % 3 == 2:
+        kw["void_element_close_prefix"] = ""
+    if fclass == "Formatter(HTML)":
+        return Formatter(Formatter.HTML, **kw), False
+    if fclass == "Formatter(XML)":
+        return Formatter(Formatter.XML, **kw), True
+    if fclass == "Formatter()":
+        return Formatter(**kw), False               # language None means HTML
+    if fclass == "HTMLFormatter":
+        return HTMLFormatter(**kw), False
+    return XMLFormatter(**kw), True
+
+
+def expected_cdata(cdata_label, is_xml):
+    cv = CDATA_VALUES[cdata_label]
+    if cv is None or (isinstance(cv, str) and cv == "omit"):
+        return set() if is_xml else {"script", "style"}
+    return set(cv)
+
+
+def build_value(kind, s):
+    """-> (value, name of its parent or None)."""
+    from bs4.element import Script, Stylesheet
+    if kind == "str":
+        return s, None
+    if kind == "NavigableString without parent":
+        return NavigableString(s), None
+    if kind == "Script without parent":
+        return Script(s), None
+    if kind == "Stylesheet without parent":
+        return Stylesheet(s), None
+    soup = BeautifulSoup("<div><p>x</p><script>x</script><style>x</style><pre>x</pre><em>x</em></div>", "html.parser")
+    holder = {"copy of a parsed string": "p", "extracted string of <p>": "p", "extracted string of <script>": "script"}.get(kind) \
+        or kind[len("string in <"):-1]
+    el = soup.find(holder)
+    obj = type(el.string)(s)
+    el.string.replace_with(obj)
+    if kind == "copy of a parsed string":
+        return copy.copy(obj), None
+    if kind.startswith("extracted"):
+        return obj.extract(), None
+    return obj, holder
+
+
+def apply_formatter(f, v):
+    carrier = BeautifulSoup("<pre></pre>", "html.parser").pre
+    carrier["t"] = v
+    return (exc(f.substitute, v), exc(f.attribute_value, v),
+            exc(lambda: v.output_ready(formatter=f)) if isinstance(v, NavigableString) else None,
+            exc(lambda: carrier.decode(formatter=f)))
+
+
+def formatter_objects_level(ctx, strings):
+    rng = ctx.rng
+    cases, cmds = [], []
+    combos = [(fc, es, cd) for fc in FCLASSES for es in ES_FUNCS for cd in CDATA_VALUES]
+    for n, (fc, es, cd) in enumerate(combos):
+        try:
+            f, is_xml = build_formatter(fc, es, cd, n)
+        except Exception as e:
+            ctx.fail({"fclass": fc, "es": es, "cdata": cd}, "the formatter cannot be constructed", "EXC:" + type(e).__name__, None,
+                     tag="formatter-object")
+            continue
+        cdset = expected_cdata(cd, is_xml)
+        # every value kind with two strings each (all strings get used across the formatters)
+        for kind in VALUE_KINDS:
+            for s in (strings[n % len(strings)], rng.choice(strings)):
+                v, parent = build_value(kind, s)
+                left_alone = es is None or (parent is not None and parent in cdset)
+                got = apply_formatter(f, v)
+                ctx.case(("fobj", fc, es, cd, kind, s), nontrivial=interesting(s))
+                cmds.append([9004, False, common.opt(es), bool(left_alone), s])
+                cases.append(({"s": s, "fclass": fc, "es": es, "cdata": cd, "kind": kind, "variant": n, "formatter": es},
+                              left_alone, got))
+    ctx.count("formatter_object_cases", len(cases))
+    # ---- direct oracle (documented rule; no model)
+    written = [g[3] for _, _, g in cases]
+    qs = []
+    for (case, left_alone, got) in cases:
+        w = got[3]
+        q = w[len("<pre t="):-len("></pre>")] if isinstance(w, str) and w.startswith("<pre t=") and w.endswith("></pre>") else None
+        qs.append(q)
+    backs = read_attr_many([q if q is not None else '""' for q in qs])
+    for (case, left_alone, got), q, back in zip(cases, qs, backs):
+        s, es = case["s"], case["es"]
+        if left_alone:
+            for g, nm in zip(got[:3], ("substitute", "attribute_value", "output_ready")):
+                if g is not None and g != s:
+                    ctx.fail(case, "Formatter.%s changed a value it must leave alone" % nm, g, s, tag="formatter-object")
+            continue
+        if es == "html5" and bare_positions(s):
+            continue
+        for g, nm in zip(got[:3], ("substitute", "attribute_value", "output_ready")):
+            if g is None:
+                continue
+            if not isinstance(g, str) or g.startswith("EXC:") or "<" in g or ">" in g:
+                ctx.fail(case, "Formatter.%s: raw angle bracket (or an exception) for a value that must be substituted" % nm,
+                         g, None, tag="formatter-object")
+                break
+            if es != "html5" and py_unescape(g) != s:
+                ctx.fail(case, "Formatter.%s: html.unescape of the result is not the original" % nm, g, s, tag="formatter-object")
+                break
+        else:
+            if s == "" and q is None:
+                continue                      # empty value rendered as a bare attribute name (C15)
+            if q is None or not check_quote(ctx, s, q, "formatter-object", es):
+                ctx.fail(case, "Tag.decode: the attribute is not written as a well-formed quoted value", got[3], None,
+                         tag="formatter-object")
+            elif "<" in q or ">" in q or back != s:
+                ctx.fail(case, "Tag.decode: the attribute value is not read back as the original",
+                         {"written": got[3], "read": back}, s, tag="formatter-object")
+    # ---- correspondence with Model.EntitySubst.formatter_substitute / quoted_attribute_value
+    if not ctx.build.model_ok:
+        return
+    res = ctx.model.run(cmds)
+    mts = [(ts(r[0][0]) if (not isinstance(r, tuple) and r and r[0]) else None) for r in res]
+    resq = ctx.model.run([[9003, mt if mt is not None else ""] for mt in mts])
+    for (case, left_alone, got), mt, rq in zip(cases, mts, resq):
+        if mt is None or isinstance(rq, tuple):
+            ctx.disagree("model run (formatter objects)", case, None, None); continue
+        exp = (mt, mt, mt, "<pre t=" + ts(rq) + "></pre>")
+        for g, e, nm in zip(got, exp, ("Formatter.substitute", "Formatter.attribute_value", "output_ready", "Tag.decode (attribute)")):
+            if g is None or (nm.startswith("Tag") and case["s"] == ""):
+                continue
+            if g != e:
+                ctx.disagree("%s of a user-built formatter ~ Model.EntitySubst.formatter_substitute" % nm, case, g, e)
+
+
 # ------------------------------------------------------------------------------------------ real reader, other contexts
 def real_reader_contexts(ctx):
     """Model/TextReaderReal.real_read_text against the parser for raw texts (not outputs), in three document contexts:
@@ -710,6 +867,8 @@ def run(ctx):
     k = 24 if ctx.thorough else 8
     string_class_level(ctx, ["a<b", "x > y", "AT&T", "&amp;", "if (a < b && c > d) { go('&lt;'); }", "<\u20d2\u00e9>", "\"'<>&"]
                        + ctx.rng.sample(pool, min(k, len(pool))))
+    formatter_objects_level(ctx, ["a<b", "x > y", "AT&T", "&amp;", "\"'<>&", "<\u20d2\u00e9>", "a\"b", "it's <i>", ""]
+                            + ctx.rng.sample(pool, min(6, len(pool))))
     formatter_level(ctx, list(dict.fromkeys(slice_for_formatters + ["", "&", "<>", "a\"b'c", "&amp x", "≧̸"])))
     ctx.counts.update({"html5_known_class_cases": st["known"], "html5_no_bare_ref_true": st["nbr_true"],
                        "html5_no_bare_ref_false": st["nbr_false"],
@@ -744,6 +903,25 @@ def replay(ctx, data):
         print("nothing to replay in", data.get("kind"), data.get("no_longer_checks"))
         return 1
     fmt = c.get("formatter")
+    if "fclass" in c:
+        f, is_xml = build_formatter(c["fclass"], c.get("es"), c["cdata"], c.get("variant", 0))
+        v, parent = build_value(c["kind"], s)
+        left_alone = c.get("es") is None or (parent is not None and parent in expected_cdata(c["cdata"], is_xml))
+        got = apply_formatter(f, v)
+        w = got[3]
+        q = w[len("<pre t="):-len("></pre>")] if isinstance(w, str) and w.startswith("<pre t=") else None
+        back = read_attr_one(q) if q else None
+        print("%s(entity_substitution=%s, cdata_containing_tags=%s), value: %s %r (parent %r) -> substitute %r ; attribute_value %r ; "
+              "output_ready %r ; as attribute %r read back %r ; must be %s"
+              % (c["fclass"], c.get("es"), c["cdata"], c["kind"], s, parent, got[0], got[1], got[2], w, back,
+                 "left alone" if left_alone else "substituted"))
+        if left_alone:
+            bad = any(g is not None and g != s for g in got[:3])
+        else:
+            bad = any(g is not None and (not isinstance(g, str) or "<" in g or ">" in g) for g in got[:3]) or \
+                (s != "" and back != s and not (c.get("es") == "html5" and bare_positions(s)))
+        print("still failing" if bad else "no longer failing")
+        return 1 if bad else 0
     if "history" in c:
         cls = XMLFormatter if c["xml"] else HTMLFormatter
         fo = cls.REGISTRY.get(fmt)
